@@ -7,4 +7,4 @@ func verifSawChange(IndexVectorChange) {}
 
 func (v *IndexVamana) verifClassified(updated, deleted, touched, inserted any) {}
 
-func verifEdgeScan(toPrune, toSave any) {}
+func (v *IndexVamana) verifEdgeScan(toPrune, toSave any) {}
